@@ -27,12 +27,13 @@ const (
 	EndLeak
 	EndInfeasible
 	EndInternal
+	EndRace
 )
 
 var endNames = map[PathEndKind]string{
 	EndOK: "ok", EndPanic: "PANIC", EndAssertFail: "ASSERT-FAIL", EndAssumeFalse: "ASSUME-FALSE",
 	EndOutOfBound: "OUT-OF-BOUND", EndUnwind: "UNWIND", EndUnsupported: "UNSUPPORTED",
-	EndDeadlock: "DEADLOCK", EndLeak: "LEAKED-GOROUTINE", EndInfeasible: "INFEASIBLE", EndInternal: "INTERNAL",
+	EndDeadlock: "DEADLOCK", EndLeak: "LEAKED-GOROUTINE", EndInfeasible: "INFEASIBLE", EndInternal: "INTERNAL", EndRace: "RACE-CANDIDATE",
 }
 
 func (k PathEndKind) String() string { return endNames[k] }
@@ -68,6 +69,7 @@ type Violation struct {
 	Nondet    []NondetRec `json:"nondet"`
 	Decisions []int32     `json:"-"`
 	Validated bool        `json:"validated"`
+	Schedule  bool        `json:"schedule,omitempty"` // found under explicit schedule exploration
 	Trace     []string    `json:"trace,omitempty"`
 }
 
@@ -121,7 +123,10 @@ type Machine struct {
 	quiescing bool
 	killing  bool
 	schedOn  bool
+	schedUsed bool
 	preempts int
+	preemptBound int
+	schedChans bool
 
 	// host-side state of intrinsics, reset per path
 	mutexes   map[*Value]*mutexState
@@ -135,6 +140,7 @@ type Machine struct {
 	mapOrder  int
 	funcsSeen map[*ssa.Function]int
 	lockset   *locksetState
+	locksetOn bool
 	expectPanic bool
 	heapObjs  int
 	harness   string
@@ -144,6 +150,7 @@ type Machine struct {
 	outOfBound int
 	tempSeq   int
 	openFiles map[*Value]string
+	csvFiles  map[string]*csvFile
 	fsLog     []string
 	wgs       map[*Value]*int
 	cardApps  []cardApp
@@ -680,6 +687,7 @@ func (m *Machine) mkViolation(kind, msg string, as *Assignment) *Violation {
 		v.Nondet = append(v.Nondet, rr)
 	}
 	v.Decisions = append([]int32(nil), m.decisions...)
+	v.Schedule = m.schedUsed
 	v.Trace = append([]string(nil), m.trace...)
 	return v
 }
@@ -776,7 +784,9 @@ func (m *Machine) resetPath(prefix []int32) {
 	m.condWaiters = nil
 	m.killing = false
 	m.schedOn = false
+	m.schedUsed = false
 	m.preempts = 0
+	m.preemptBound = 2
 	m.mutexes = map[*Value]*mutexState{}
 	m.ghostFS = map[string]*ghostFile{}
 	m.flocks = map[string]bool{}
@@ -787,6 +797,7 @@ func (m *Machine) resetPath(prefix []int32) {
 	m.absHashPrefix = ""
 	m.mapOrder = 1
 	m.lockset = nil
+	m.locksetOn = false
 	m.expectPanic = false
 	m.loopCount = map[loopKey]int{}
 	m.trace = nil
@@ -794,6 +805,7 @@ func (m *Machine) resetPath(prefix []int32) {
 	m.tempSeq = 0
 	m.pathStart = time.Now()
 	m.openFiles = nil
+	m.csvFiles = nil
 	m.fsLog = nil
 	m.wgs = nil
 	m.cardApps = nil
@@ -825,7 +837,7 @@ func (m *Machine) RunPath(fn *ssa.Function, prefix []int32) (res PathResult, wor
 			case violationEnd:
 				res.Kind = EndAssertFail
 				if r.v.Kind != "ASSERT-FAIL" {
-					res.Kind = map[string]PathEndKind{"PANIC": EndPanic, "DEADLOCK": EndDeadlock, "LEAKED-GOROUTINE": EndLeak}[r.v.Kind]
+					res.Kind = map[string]PathEndKind{"PANIC": EndPanic, "DEADLOCK": EndDeadlock, "LEAKED-GOROUTINE": EndLeak, "RACE-CANDIDATE": EndRace}[r.v.Kind]
 				}
 				res.Msg = r.v.Msg
 				res.Violation = r.v
